@@ -22,6 +22,7 @@ package dependency // import "pault.ag/go/debian/dependency"
 
 import (
 	"errors"
+	"fmt"
 	"strings"
 )
 
@@ -74,6 +75,12 @@ func parseArchInto(ret *Arch, arch string) error {
 	 * kfreebsd-amd64 (implicitly any-kfreebsd-any)
 	 * bsd-openbsd-i386 */
 	flavors := strings.SplitN(arch, "-", 3)
+	for _, flavor := range flavors {
+		if flavor == "" {
+			/* "", "-", "linux-", "--": no component of a name is empty */
+			return fmt.Errorf("Architecture '%s' has an empty component", arch)
+		}
+	}
 	switch len(flavors) {
 	case 1:
 		flavor := flavors[0]
